@@ -188,14 +188,7 @@ type c19Run struct {
 
 func (r *c19Run) compareState(where string) bool {
 	v, op, h := c19Snap(r.ctr)
-	m := r.c.Model.Ask("ctr-get %d", r.id)
-	r.c.Compared()
-	want := fmt.Sprintf("ok %d %d %s", v, op, c19Show(h))
-	if m != want {
-		r.c.Disagree("C19/corr/state", fmt.Sprintf("%s: impl %.300s model %.300s", where, want, m), r.k)
-		return false
-	}
-	// direct oracle on the real state
+	// direct oracle on the real state (always, also when the model disagrees)
 	if r.k.TS {
 		if s := c19Sum(h); s != r.hsum {
 			r.c.Violate("C19/counter/history-sum-changed", fmt.Sprintf("%s: Σ history = %d, want %d (value %d)", where, s, r.hsum, v), r.k)
@@ -212,6 +205,13 @@ func (r *c19Run) compareState(where string) bool {
 	}
 	if v != r.sumAdd {
 		r.c.Violate("C19/counter/value-ne-increments", fmt.Sprintf("%s: value %d, Σ increments %d", where, v, r.sumAdd), r.k)
+	}
+	m := r.c.Model.Ask("ctr-get %d", r.id)
+	r.c.Compared()
+	want := fmt.Sprintf("ok %d %d %s", v, op, c19Show(h))
+	if m != want {
+		r.c.Disagree("C19/corr/state", fmt.Sprintf("%s: impl %.300s model %.300s", where, want, m), r.k)
+		return false
 	}
 	return true
 }
@@ -300,7 +300,7 @@ func c19RunCounter(c *core.Ctx, k c19Case) bool {
 			if !k.TS {
 				continue
 			}
-			t1, t2 := r.base.UnixNano()-op.A1, r.base.UnixNano()-op.A2
+			t1, t2 := baseMs*1e6-op.A1, baseMs*1e6-op.A2 // relative to the millisecond the timestamps are relative to
 			v, _, h := c19Snap(r.ctr)
 			got := r.ctr.DeltaBetween(time.Unix(0, t1), time.Unix(0, t2))
 			m := c.Model.Ask("ctr-query %d %d %d", r.id, t1, t2)
